@@ -6,6 +6,7 @@ import PV.C13.Fold
 import PV.C13.Overrides
 import PV.Gen.C12Schema
 import PV.C13.Parsed
+import PV.C13.Spans
 import PV.C02.RProgPlain
 import Drv.C02Prog
 /-! Driver for C13: answers the same request lines as `harness/src/bin/pvh_c13.rs` with the model.
@@ -23,9 +24,13 @@ import Drv.C02Prog
                                      its tree `toTree false m` must be the attached real tree up to leaf payloads
                                      (`skel`; else `tree-mismatch`); then the `fold` answer computed on THE MODEL'S
                                      tree, and `chk=ok` iff what the parser-level theorems say holds on this input
-                                     (`plainM m → ordM m`, `ordM m ∧ OffsOk → SrcOrdered`, `Conforms`)
+                                     (`plainM m → ordM m`, `ordM m ∧ OffsOk → SrcOrdered`, `Conforms`,
+                                     `plainM m ∧ spans tiled ∧ SpansOk ∧ NotBomTokenless → OffsOk` in both builds) and
+                                     the real token spans are `SpansOk` (the hypothesis of `parsed_tree_*'` about
+                                     the lexer's output, evaluated on every input)
   `pord <mode> <src> <tokens> <spans>`  (not sent to the harness: statistics for the evidence file) the same parse:
-                                     `plainM`, `ordM`, `OffsOk`, `SrcOrdered` (default build / all-nodes-with-ranges)
+                                     `plainM`, `ordM`, `OffsOk`, `SrcOrdered` (default build / all-nodes-with-ranges),
+                                     `tiled=` / `sp=` the spans tile the source / are `SpansOk`, `nbt1=` `NotBomTokenless true`
   `d` = build with debug assertions and overflow checks, `r` = without.
 -/
 open PV PV.C13
@@ -171,32 +176,50 @@ def parseSpans (s : String) : Option (List (Nat × Nat)) :=
       | _, _ => none
     | _ => none
 
-def modelParse (mode toks att : String) : Option C02.RMod :=
+/-- the spanned token list of a request and its parse by the model -/
+def modelParse (mode toks att : String) : Option (List C02.RPTok × C02.RMod) :=
   match C02Prog.modeOfStr mode, C02Prog.decodeToks toks, parseSpans att with
   | some md, some tks, some spans =>
     if tks.length != spans.length then none
-    else C02.parseRProgramA md ((tks.zip spans).map fun (t, (a, b)) => ⟨t, a, b⟩)
+    else
+      let rt : List C02.RPTok := (tks.zip spans).map fun (t, (a, b)) => ⟨t, a, b⟩
+      (C02.parseRProgramA md rt).map fun m => (rt, m)
   | _, _, _ => none
+
+/-- `PV.C02.TiledP` evaluated (every span a slice of the source on character boundaries, tokens in source order) -/
+def tiledB (src : List Nat) : List C02.RPTok → Bool
+  | [] => true
+  | t :: ts =>
+    decide (t.s ≤ t.e) && decide (t.e ≤ src.length) && C02.isBoundary src t.s && C02.isBoundary src t.e &&
+      (match ts with | [] => true | u :: _ => decide (t.e ≤ u.s)) && tiledB src ts
+
+/-- what `offsOk_of_spansOk` (SpansThm.lean) says, evaluated for one build -/
+def spansChk (ar : Bool) (src : List Nat) (rt : List C02.RPTok) (m : C02.RMod) : Bool :=
+  !(C02.plainM m && tiledB src rt && decide (SpansOk src rt) && decide (NotBomTokenless ar src rt)) ||
+    decide (OffsOk src (toTree ar m))
 
 def handlePord (mode : String) (src : List Nat) (toks att : String) : String :=
   match modelParse mode toks att with
   | none => "parse-none"
-  | some m =>
+  | some (rt, m) =>
     let t0 := toTree false m
     let t1 := toTree true m
-    s!"plain={C02.plainM m} ordm={ordM m} ok0={decide (OffsOk src t0)} ok1={decide (OffsOk src t1)} so0={decide (SrcOrdered realCfg src t0)} so1={decide (SrcOrdered realCfg src t1)} conf0={decide (C12.Conforms C12.Gen.schema t0)} conf1={decide (C12.Conforms C12.Gen.schema t1)}"
+    s!"plain={C02.plainM m} ordm={ordM m} ok0={decide (OffsOk src t0)} ok1={decide (OffsOk src t1)} so0={decide (SrcOrdered realCfg src t0)} so1={decide (SrcOrdered realCfg src t1)} conf0={decide (C12.Conforms C12.Gen.schema t0)} conf1={decide (C12.Conforms C12.Gen.schema t1)} tiled={tiledB src rt} sp={decide (SpansOk src rt)} nbt1={decide (NotBomTokenless true src rt)} spchk={spansChk false src rt m && spansChk true src rt m}"
 
 def handlePfold (dbg : Bool) (mode : String) (src : List Nat) (toks att : String) (real : C12.Tree) : String :=
   match modelParse mode toks att with
   | none => "parse-none"
-  | some m =>
+  | some (rt, m) =>
     let t := toTree false m
     if !(C12.Tree.beq (skel t) (skel real)) then "tree-mismatch" else
     let so := decide (SrcOrdered realCfg src t)
     let c1 := !(C02.plainM m) || ordM m
     let c2 := !(ordM m && decide (OffsOk src t)) || so
     let c3 := decide (C12.Conforms C12.Gen.schema t)
-    let chk := if c1 && c2 && c3 then "ok" else s!"BAD:plain→ordM={c1},ordM∧OffsOk→SrcOrdered={c2},conforms={c3}"
+    let c4 := spansChk false src rt m && spansChk true src rt m
+    let c5 := tiledB src rt && decide (SpansOk src rt)
+    let chk := if c1 && c2 && c3 && c4 && c5 then "ok"
+      else s!"BAD:plain→ordM={c1},ordM∧OffsOk→SrcOrdered={c2},conforms={c3},plain∧SpansOk→OffsOk={c4},tiled∧SpansOk={c5}"
     s!"{handleFold dbg src t} chk={chk}"
 
 def handle : List String → String
